@@ -111,6 +111,9 @@ class Index:
                 name = o.get('name') or '(anon)'
                 if k == 'ClassTemplateSpecializationDecl':
                     name = name + '<' + ','.join(self._targ(a) for a in o.get('inner', []) if a.get('kind') == 'TemplateArgument') + '>'
+                pid = o.get('parentDeclContextId')
+                if top and pid in self.rec_qname:          # out-of-line definition of a nested class
+                    scope = self.rec_qname[pid]
                 q = (scope + '::' if scope else '') + name
                 self.records[o['id']] = o; self.rec_qname[o['id']] = q
                 self.rec_by_name.setdefault(q, o)
